@@ -75,19 +75,27 @@ JsonView(S) == {q \in S : ~(q[2] = "e:" /\ \E r \in S : r[1] \in AllLeaf /\ UPre
 \* is addressing, not part of the change (the proto rendering carries the keys in the path)
 Content(S) == {q \in S : ~(q[1] \in UKeyLeaf /\ q[2] = "key" /\ \E r \in S : r[1] \in AllLeaf /\ r[1] \notin UKeyLeaf /\ UEntryOf[r[1]] = UEntryOf[q[1]])}
 Same(A, B) == Content(JsonView(A)) = Content(JsonView(B))
+\* a presence container that keeps a child on the device exists there already, implied by that child: restating it
+\* or not denotes the same write (proto restates it when its owner changes, JSON/XML show it only through children)
+Restated(S, c, dv) == {q \in S : q[2] = "e:"
+                                  /\ \E x \in DOMAIN dv : x \notin SeqRange(c.del) /\ x \in AllLeaf /\ UPresenceParent[x] = q[1]}
+SameW(A, B, c, dv) == Same(A \ Restated(A, c, dv), B \ Restated(B, c, dv))
 \* what an XML document deletes: the deleted elements plus, below an element with operation="replace", everything it does not restate
 XmlDel(x) == SeqRange(x.del) \cup (SeqRange(x.replaceleaves) \ {q[1] : q \in Pairs(x.upd)})
+\* the key elements of a list entry in which the document deletes something address that delete
+XmlUpd(x) == {q \in Pairs(x.upd) : ~(q[1] \in UKeyLeaf /\ q[2] = "key"
+                                     /\ \E dl \in XmlDel(x) : dl \in AllLeaf /\ UEntryOf[dl] = UEntryOf[q[1]])}
 XmlOpsOK(x) == LET del == IF x.opts[3] THEN "remove" ELSE "delete"
                    ok == IF x.opts[2] THEN {"nc:" \o del} ELSE {del}
                IN (SeqRange(x.ops) \ {"replace", "nc:replace"}) \subseteq ok
-EncClauses(c) ==
+EncClauses(c, dv) ==
   LET pu == Pairs(c.upd)
       pd == SeqRange(c.del)
       X == SeqRange(c.enc.xml)
   IN {<<"C10", "RenderingsSucceed", Len(c.enc.errs) = 0 /\ \A x \in X : x.err = "">>,
-      <<"C10", "JsonSameUpd", Same(Pairs(c.enc.json), pu)>>,
-      <<"C10", "JsonIetfSameUpd", Same(Pairs(c.enc.ietf), pu)>>,
-      <<"C10", "XmlSameUpd", \A x \in X : Same(Pairs(x.upd), pu)>>,
+      <<"C10", "JsonSameUpd", SameW(Pairs(c.enc.json), pu, c, dv)>>,
+      <<"C10", "JsonIetfSameUpd", SameW(Pairs(c.enc.ietf), pu, c, dv)>>,
+      <<"C10", "XmlSameUpd", \A x \in X : SameW(XmlUpd(x), pu, c, dv)>>,
       <<"C10", "XmlSameDel", \A x \in X : XmlDel(x) = pd>>,
       <<"C10", "XmlNamespaces", \A x \in X : x.opts[1] => x.nsok>>,
       <<"C10", "XmlKeysFirst", \A x \in X : x.keysfirst>>,
@@ -97,7 +105,7 @@ EncClauses(c) ==
       <<"C10", "FullViewsAgree", /\ Same(Pairs(c.enc.protoall), Pairs(c.enc.jsonall))
                                  /\ Same(Pairs(c.enc.jsonall), Pairs(c.enc.ietfall))
                                  /\ Same(Pairs(c.enc.xmlall), Pairs(c.enc.jsonall))>>}
-EncOf(e) == UNION {EncClauses(e.sets[i]) : i \in {j \in 1..Len(e.sets) : e.sets[j].hasenc}}
+EncOf(e) == UNION {EncClauses(e.sets[i], device) : i \in {j \in 1..Len(e.sets) : e.sets[j].hasenc}}
 
 \* ---- TransactionSet ------------------------------------------------------------------
 SetClauses(e, o) ==
